@@ -199,7 +199,7 @@ Theorem C15_arr_foreign_comparison_rejected :
 Proof. exact Arr.arr_foreign_comparison_rejected. Qed.
 Print Assumptions C15_arr_foreign_comparison_rejected.
 Theorem C15_arr_rejected_call_is_identity :
-  forall s o s', Arr.astep s o = (s', Arr.ARej) -> s' = s.
+  forall s o s', Arr.astep s o = (s', Arr.ARej) \/ Arr.astep s o = (s', Arr.AExn) -> s' = s.
 Proof. exact Arr.arr_rejected_call_is_identity. Qed.
 Print Assumptions C15_arr_rejected_call_is_identity.
 
